@@ -248,6 +248,15 @@ class SimOS:
         UNSUPPORTED.append(f"os.{name}")
         raise AttributeError(f"SimOS lacks os.{name}")
 
+    def kill(self, pid, sig):
+        """only the existence probe (signal 0): the simulated world has one process, this one"""
+        if sig != 0:
+            UNSUPPORTED.append(f"os.kill(sig={sig})")
+            raise PermissionError(errno.EPERM, "Operation not permitted")
+        if pid == _os.getpid():
+            return None
+        raise ProcessLookupError(errno.ESRCH, "No such process")
+
     # ---- metadata
     def stat(self, path, **k):
         fs = self.fs
